@@ -96,12 +96,15 @@ fn inner(prop: &str, mut t: Tape, rep: &mut WorldReport) {
         }
     }
     let max_rounds = *t.pick(&[3usize, 0, 5, 10]);
+    let rich_directives = profile == Profile::Rich && t.chance(1, 3);
     let program = gen_program(
         &mut t,
         &GenCfg {
             profile,
             mainnet: pp.mainnet,
             max_txs: 2,
+            force_min_utxo: None,
+            rich_directives,
         },
     );
     let source = program.source();
@@ -197,6 +200,7 @@ fn inner(prop: &str, mut t: Tape, rep: &mut WorldReport) {
             shown = run_direct(&w, &program, &txspec, &tir_tx, &plan.args, &pp, stratum, rep, &ctx);
         } else {
             shown = run_e2e(
+                prop,
                 &w,
                 &program,
                 &txspec,
@@ -258,6 +262,7 @@ fn panic_violation(rep: &mut WorldReport, p: &crate::exec::PanicInfo, ctx: &str)
 
 #[allow(clippy::too_many_arguments)]
 fn run_e2e(
+    prop: &str,
     w: &W,
     program: &Program,
     txspec: &TxSpec,
@@ -316,6 +321,15 @@ fn run_e2e(
                 let hint = if extreme { "int-arg-near-i128-limit" } else { "" };
                 check_balance(rep, &d, &served, hint, ctx);
                 check_echo(rep, program, txspec, args, &d, ctx);
+            }
+            if prop == "C10" {
+                if let Some(last) = res.rounds.iter().rev().find(|r| r.out.is_ok()) {
+                    let (s1, s2) = {
+                        let mut g = w.lock().unwrap();
+                        (1 + g.tape.draw(1 << 40), 1 + g.tape.draw(1 << 40))
+                    };
+                    check_repro(rep, pp, &last.tir, c, s1, s2, ctx);
+                }
             }
             let facts = check_fee(rep, pp, max_rounds, &res.rounds, c, &d, ctx);
             if facts.cap_reached && !facts.converged {
@@ -573,6 +587,63 @@ fn check_completeness(
                     show_value(min)
                 ),
             );
+        }
+    }
+}
+
+
+/// R1 of C10: the constant TIR of the returned round is encoded once, then decoded and
+/// compiled in two fresh worlds with different hash seeds ("a second process") and twice
+/// on one instance; payload, hash and fee must be byte-identical.
+fn check_repro(rep: &mut WorldReport, pp: &PPCfg, tx: &tir::Tx, original: &crate::compiler::Compiled, s1: u64, s2: u64, ctx: &str) {
+    use tx3_tir::compile::Compiler as _;
+    let (bytes, version) = tx3_tir::encoding::to_bytes(tx);
+    let run = |seed: u64| {
+        let bytes = bytes.clone();
+        let version = version.clone();
+        let pp = pp.clone();
+        crate::entropy::in_world(seed, move || {
+            guarded(|| {
+                let any = tx3_tir::encoding::from_bytes(&bytes, version).map_err(|e| format!("{e:?}"))?;
+                let mut c = make_compiler(&pp);
+                let a = c.compile(&any).map_err(|e| format!("{e:?}"))?;
+                let b = c.compile(&any).map_err(|e| format!("{e:?}"))?;
+                Ok::<_, String>((crate::compiler::copy_compiled(&a), crate::compiler::copy_compiled(&b)))
+            })
+        })
+    };
+    rep.fire("hseed-pair");
+    let multi = bindings_of(tx).values().any(|v| v.len() > 1);
+    let shape = if multi { "multi-utxo-input" } else { "single-utxo-inputs" };
+    let (a, b) = (run(s1), run(s2));
+    match (a, b) {
+        (Ok(Ok((a1, a2))), Ok(Ok((b1, _)))) => {
+            if a1.payload != a2.payload || a1.hash != a2.hash {
+                rep.violate("C10", "R1-repro", format!("{shape}/same-instance"), format!("{ctx}: compiling the same reduced template twice on one instance gave different payloads"));
+            }
+            if a1.payload != b1.payload || a1.hash != b1.hash || a1.fee != b1.fee {
+                rep.violate(
+                    "C10",
+                    "R1-repro",
+                    shape,
+                    format!(
+                        "{ctx}: the same reduced template compiled under hash seeds {s1} and {s2} gave tx {} and {}",
+                        hex::encode(&a1.hash[..6]),
+                        hex::encode(&b1.hash[..6])
+                    ),
+                );
+            } else if a1.payload != original.payload {
+                rep.violate(
+                    "C10",
+                    "R1-repro",
+                    format!("{shape}/vs-resolver"),
+                    format!("{ctx}: recompiling the returned round's template after an encode/decode round trip gave a different payload than the resolver returned"),
+                );
+            }
+        }
+        (Err(p), _) | (_, Err(p)) => panic_violation(rep, &p, ctx),
+        (Ok(Err(e)), _) | (_, Ok(Err(e))) => {
+            rep.violate("C10", "R1-repro", "recompile-failed", format!("{ctx}: the template the resolver compiled cannot be compiled again after an encode/decode round trip: {e}"));
         }
     }
 }
